@@ -47,7 +47,12 @@ WHAT IS ENUMERATED
     points and final state;
   * TWO SAVERS: two processes with different pids save the same file, the second is killed
     mid-save: the two recorded traces are interleaved at every operation boundary and
-    materialised (oracle only; the model has one writer per path).
+    materialised (oracle only; the model has one writer per path);
+  * SIBLING FILES: two storages of one process saving two DIFFERENT files of one directory at
+    overlapping times, interleaved the same way, with and without the process dying.
+Loads run under virtual time (time.sleep patched): a load() that waits longer than 1 s — e.g.
+for a lock left behind by a dead process — counts like one that raises.  Generation stops once
+the oracle has failing inputs or the tier's time budget is used up.
 """
 import asyncio
 import builtins
@@ -961,13 +966,20 @@ def with_faults(ctx, loop, sc, full, jobs, want_states=False):
     return res
 
 
-def record_save(loop, root, sub, kind, old_bytes, new_devs, pid):
+def record_save(loop, root, sub, kind, old_bytes, new_devs, pid, other=None):
     """one real save() of `new_devs` over the old file, by a process that sees `pid`:
     (raw trace, canonical new content, exception class or None)"""
     from pyatv.storage.file_storage import FileStorage
 
     box = os.path.join(root, sub)
     given, cwd, abs_settings = make_layout(box, kind, old_bytes, {})
+    if other:
+        # a second settings file in the same directory
+        given = abs_settings = os.path.join(os.path.dirname(abs_settings), other)
+        cwd = None
+        if old_bytes is not None:
+            with open(abs_settings, "wb") as f:
+                f.write(old_bytes)
     cwd0 = os.getcwd()
     try:
         if cwd:
@@ -1052,6 +1064,74 @@ def concurrent_savers(ctx, loop, sc, new_b, only=None):
                                  "two processes save the same settings file; the second is killed after %d of its %d file operations "
                                  "(persisted prefix %d) while the first is after %d of its %d: the settings file afterwards %s"
                                  % (j, len(tb), k, i, len(ta), "does not load" if obs[0] == "raises" else "is neither old nor new"))
+    finally:
+        shutil.rmtree(root, ignore_errors=True)
+
+
+def sibling_savers(ctx, loop, sc, new_b, only=None):
+    """Two FileStorage objects of ONE process for two DIFFERENT settings files in the same
+    directory save at overlapping times (save() runs in executor threads); the process may be
+    killed.  The two really recorded traces are interleaved at every operation boundary: A runs
+    i operations, B runs j operations (all of them, or is cut off there with k bytes of unflushed
+    data persisted), A runs to the end.  Each file must load and hold ITS old or ITS new content."""
+    root = tempfile.mkdtemp(prefix="verif-c15-", dir="/tmp")
+    other = "other.conf"
+    try:
+        old_bytes = None if sc.get("old_hex") is None else bytes.fromhex(sc["old_hex"])
+        ra = record_save(loop, root, "A", "plain", old_bytes, sc["new"], None)
+        rb = record_save(loop, root, "B", "plain", old_bytes, new_b, None, other=other)
+        if ra is None or rb is None or ra[2] or rb[2] or any(op[0] == "x" for op in ra[0] + rb[0]):
+            ctx.note("sibling-savers:skipped")
+            return
+        ta = ra[0]
+        tb = [((op[0], op[1] + 1000) + tuple(op[2:])) if op[0] in "owfsc" else op for op in rb[0]]
+        extras = {} if old_bytes is None else {os.path.join("live", other): old_bytes}
+        box0 = os.path.join(root, "old")
+        _g, _c, abs0 = make_layout(box0, "plain", old_bytes, extras)
+        content_old = _fresh_load(loop, abs0)[1]
+        ok_a = [("ok", content_old), ("ok", ra[1])]
+        ok_b = [("ok", content_old), ("ok", rb[1])]
+        n = 0
+        for i in range(len(ta) + 1):
+            for j in range(1, len(tb) + 1):
+                for k in ((0, 1, 40) if j < len(tb) else (None,)):
+                    if only is not None and [i, j, k] != only:
+                        continue
+                    if len(ctx.failures) >= 40 and only is None:
+                        return
+                    n += 1
+                    r = _Replayer(os.path.join(root, "x%d" % n), "plain", old_bytes, extras)
+                    try:
+                        for op in ta[:i]:
+                            r.step(op)
+                        for op in tb[:j]:
+                            r.step(op)
+                        dead = k is not None
+                        if dead:        # the process dies here: nothing of A's or B's buffers survives beyond k bytes of B's
+                            for fid in list(r.pend):
+                                r._persist(fid, k if fid >= 1000 else 0)
+                        else:
+                            for op in ta[i:]:
+                                try:
+                                    r.step(op)
+                                except OSError:
+                                    break
+                    finally:
+                        r.close_all()
+                    obs_a = _fresh_load(loop, r.settings)
+                    obs_b = _fresh_load(loop, os.path.join(os.path.dirname(r.settings), other))
+                    shutil.rmtree(r.root, ignore_errors=True)
+                    ctx.case(["siblings", sc["pair"], i, j, k], True)
+                    ctx.note("sibling-savers:interleaving")
+                    for which, obs, allowed in (("first", obs_a, ok_a), ("second", obs_b, ok_b)):
+                        if obs not in allowed:
+                            ctx.fail("sibling-savers:%s-file:%s" % (which, "load-raises" if obs[0] == "raises" else "neither-old-nor-new"),
+                                     {"pair": sc["pair"], "old_hex": sc.get("old_hex"), "new": sc["new"], "new_b": new_b, "siblings": [i, j, k]},
+                                     obs, "each settings file loads and holds its own complete old or new content",
+                                     "two storages of one process save two different files of one directory at overlapping times (first after "
+                                     "%d of %d operations, second after %d of %d%s): the %s file afterwards %s"
+                                     % (i, len(ta), j, len(tb), ", then the process dies" if dead else "", which,
+                                        "does not load" if obs[0] == "raises" else "holds content that is neither its old nor its new one"))
     finally:
         shutil.rmtree(root, ignore_errors=True)
 
@@ -1144,6 +1224,12 @@ def _run(ctx, only, loop, jobs, t0):
                     concurrent_savers(ctx, loop, by_label[label], nb)
                 except Exception as e:
                     ctx.disagree({"pair": label, "concurrent": True}, "harness step raised %s: %s" % (type(e).__name__, e), "n/a", where="concurrent_savers")
+            for label, nb in (("grow", [_dev(9, cred="other-file")]), ("shrink", BIG[:2])):
+                _guard(ctx, t0)
+                try:
+                    sibling_savers(ctx, loop, by_label[label], nb)
+                except Exception as e:
+                    ctx.disagree({"pair": label, "siblings": True}, "harness step raised %s: %s" % (type(e).__name__, e), "n/a", where="sibling_savers")
             for kind in NAME_KINDS:
                 for label in ["grow", "shrink"]:
                     try:
@@ -1154,6 +1240,15 @@ def _run(ctx, only, loop, jobs, t0):
 
 def replay(ctx, failure):
     case = failure["case"]
+    if case.get("siblings"):
+        c2 = type(ctx)(ctx.prop, ctx.tier, ctx.seed, ctx.driver.driver_rel)
+        loop = asyncio.new_event_loop()
+        try:
+            sibling_savers(c2, loop, case, case["new_b"], only=case["siblings"])
+        finally:
+            loop.run_until_complete(loop.shutdown_default_executor())
+            loop.close()
+        return bool(c2.failures)
     if case.get("concurrent"):
         c2 = type(ctx)(ctx.prop, ctx.tier, ctx.seed, ctx.driver.driver_rel)
         loop = asyncio.new_event_loop()
